@@ -373,6 +373,7 @@ func cmdCheckOracle(args []string) {
 	prof := fs.String("profile", "all", "program profile")
 	only := fs.Int("only", -1, "run just this index, verbosely")
 	shrinkMs := fs.Int("shrinkms", 300, "shrink time for the minimizing run (ms)")
+	shrinkUs := fs.Int("shrinkus", 0, "shrink time in microseconds (overrides -shrinkms when > 0)")
 	_ = fs.Parse(args)
 	calibrate()
 	pf := profileByName(*prof)
@@ -391,7 +392,11 @@ func cmdCheckOracle(args []string) {
 		base := r.next() | 1
 		var buf0 []uint64
 		have0 := false
-		for _, sh := range []time.Duration{0, time.Duration(*shrinkMs) * time.Millisecond} {
+		shd := time.Duration(*shrinkMs) * time.Millisecond
+		if *shrinkUs > 0 {
+			shd = time.Duration(*shrinkUs) * time.Microsecond
+		}
+		for _, sh := range []time.Duration{0, shd} {
 			o := RunCheck(p, "T", checks, base, sh)
 			stats["checks_run"]++
 			stats["verdict_"+o.Verdict]++
@@ -459,7 +464,13 @@ func cmdCheckOracle(args []string) {
 						tmp := NewRun()
 						e3, _ := rapid.VerifRunBuf(nil, dc.Buf, false, p.Prop(&tmp))
 						if oresCoq(e3) != oresCoq(dc.Err2) {
-							add("C01", "the reported buffer does not fail with the reported error", p, checks, base, sh,
+							what := "the reported buffer does not fail with the reported error"
+							if idx := dc.Valid + dc.Invalid; idx < len(runs2) {
+								if k := rejectedAttemptEffects(runs2[idx].Events); k != "" {
+									what += ": " + k
+								}
+							}
+							add("C01", what, p, checks, base, sh,
 								fmt.Sprintf("buf=%v reported=%s replay=%s", dc.Buf, oresCoq(dc.Err2), oresCoq(e3)), i)
 						}
 						c1, id1 := canonSite(dc.Err1)
@@ -505,4 +516,32 @@ func cmdCheckOracle(args []string) {
 	}
 	js, _ := json.Marshal(map[string]any{"stats": stats, "failures": fails})
 	fmt.Println(string(js))
+}
+
+// rejectedAttemptEffects names the (known) input class in which a rejected attempt left a trace on the
+// test state that its pruned bits no longer reproduce: a non-fatal failure signalled by a cleanup
+// function of a rejected Custom attempt, or a cleanup registered / context created by a rejected step.
+func rejectedAttemptEffects(events []string) string {
+	for i, e := range events {
+		if e == "(UCustomEnd 1)" {
+			// the cleanups of the inner T follow immediately
+			for j := i + 1; j < len(events); j++ {
+				if strings.HasPrefix(events[j], "(URun") || strings.HasPrefix(events[j], "(ULog") {
+					continue
+				}
+				if strings.HasPrefix(events[j], "(USignal KError") {
+					return "a cleanup function of a rejected Custom attempt signalled a non-fatal failure"
+				}
+				break
+			}
+		}
+		if strings.HasPrefix(e, "(UActEnd") && strings.HasSuffix(e, " 2)") {
+			for j := i - 1; j >= 0 && !strings.HasPrefix(events[j], "(UAct "); j-- {
+				if strings.HasPrefix(events[j], "(UReg") || events[j] == "UCtxNew" {
+					return "a rejected state-machine step registered a cleanup or created the context"
+				}
+			}
+		}
+	}
+	return ""
 }
